@@ -49,15 +49,15 @@ Qed.
 Lemma set_val_raw_i64 f r o zs : 1 <= nw f -> Forall (fun z => Z.abs z < 2^63) zs ->
   exists w, set_val_real f r o true (AI64 zs) VInt = Ok w /\ int_wres f o zs w.
 Proof.
-  intros Hw Hz. unfold set_val_real.
+  intros Hw Hz.
   assert (E64: 2^63 < 2^64) by (apply pow2_lt; lia).
-  assert (Hobj: obj_path f true (AI64 zs) = (64 <=? nw f)).
-  { unfold obj_path, conv_factor_int. cbn [arr_nums]. rewrite existsb_map.
+  assert (Hobj: obj_path f true (AI64 zs) VInt = (64 <=? nw f)).
+  { rewrite obj_path_AI64_int, exact_factor_raw. unfold conv_factor_int. rewrite existsb_map.
     replace (2^63 <=? 1) with false by reflexivity. cbn [orb].
     rewrite existsb_false, existsb_false; [destruct (64 <=? nw f); reflexivity| |].
     - eapply Forall_impl; [|exact Hz]. intros z Hb. cbv beta in *. lia.
     - eapply Forall_impl; [|exact Hz]. intros z Hb. cbv beta in *. unfold num_big64. lia. }
-  rewrite Hobj. destruct (64 <=? nw f) eqn:E.
+  rewrite (set_val_real_eq _ _ _ _ _ _ _ Hobj (exact_factor_raw _ _)). destruct (64 <=? nw f) eqn:E.
   - cbn [arr_nums bind]. apply finish_ints. intros z _. apply elem_pipe_raw_obj_int. exact Hw.
   - cbn [astype_vd bind]. apply finish_ints. intros z _. apply elem_pipe_raw_int_gen. lia.
 Qed.
@@ -71,13 +71,13 @@ Qed.
 Lemma set_val_raw_u64 f r o zs : 1 <= nw f < 64 -> Forall (fun z => - 2^63 <= z < 2^63) zs ->
   exists w, set_val_real f r o true (AU64 (map wrap_u64 zs)) VInt = Ok w /\ int_wres f o zs w.
 Proof.
-  intros Hw Hz. unfold set_val_real.
-  assert (Hobj: obj_path f true (AU64 (map wrap_u64 zs)) = false).
-  { unfold obj_path, conv_factor_int. cbn [arr_nums]. rewrite map_map, existsb_map.
+  intros Hw Hz.
+  assert (Hobj: obj_path f true (AU64 (map wrap_u64 zs)) VInt = false).
+  { rewrite obj_path_AU64_raw. rewrite map_map, existsb_map.
     replace (64 <=? nw f) with false by lia. rewrite !orb_false_r.
     apply existsb_false. apply Forall_forall. intros z _. unfold num_big64, wrap_u64.
     assert (0 < 2^64) by (apply pow2_pos; lia). pose proof (Z.mod_pos_bound z (2^64) ltac:(lia)). lia. }
-  rewrite Hobj. cbn [astype_vd bind]. rewrite map_map.
+  rewrite (set_val_real_eq _ _ _ _ _ _ _ Hobj (exact_factor_raw _ _)). cbn [astype_vd bind]. rewrite map_map.
   assert (Heq: map (fun x => NI (wrap_i64 (wrap_u64 x))) zs = map NI zs).
   { apply map_ext_in. intros z Hin. rewrite Forall_forall in Hz. rewrite wrap_i64_of_u64 by (apply Hz; exact Hin). reflexivity. }
   rewrite Heq. apply finish_ints. intros z _. apply elem_pipe_raw_int_gen. lia.
@@ -86,10 +86,11 @@ Qed.
 Lemma set_val_raw_obj f r o zs : 1 <= nw f ->
   exists w, set_val_real f r o true (AObj (map NI zs)) VInt = Ok w /\ int_wres f o zs w.
 Proof.
-  intros Hw. unfold set_val_real. destruct (obj_path f true (AObj (map NI zs))) eqn:Hobj.
+  intros Hw. destruct (obj_path f true (AObj (map NI zs)) VInt) eqn:Hobj;
+    rewrite (set_val_real_eq _ _ _ _ _ _ _ Hobj (exact_factor_raw _ _)).
   - cbn [arr_nums bind]. apply finish_ints. intros z _. apply elem_pipe_raw_obj_int. exact Hw.
   - (* not the object path: every |z| < 2^63 and the word is below 64 bits *)
-    unfold obj_path, conv_factor_int in Hobj. cbn [arr_nums] in Hobj.
+    rewrite obj_path_AObj_ints_raw in Hobj.
     apply orb_false_iff in Hobj. destruct Hobj as (H1 & H2). apply orb_false_iff in H1. destruct H1 as (_ & Hnw).
     replace (2^63 <=? 1) with false in H2 by reflexivity. cbn [orb] in H2. rewrite existsb_map in H2.
     assert (Hsmall: forall z, In z zs -> Z.abs z < 2^63).
@@ -139,14 +140,14 @@ Qed.
 Lemma set_val_raw_f64 f r o zs : 1 <= nw f <= 53 -> Forall (fun z => Z.abs z < 2^53) zs ->
   exists w, set_val_real f r o true (AF64 (map (fun z => Fin z 0) zs)) VFloat = Ok w /\ int_wres f o zs w.
 Proof.
-  intros Hw Hz. unfold set_val_real.
+  intros Hw Hz.
   assert (E: 2^53 < 2^64) by (apply pow2_lt; lia).
-  assert (Hobj: obj_path f true (AF64 (map (fun z => Fin z 0) zs)) = false).
-  { unfold obj_path, conv_factor_int. cbn [arr_nums]. rewrite map_map, existsb_map.
+  assert (Hobj: obj_path f true (AF64 (map (fun z => Fin z 0) zs)) VFloat = false).
+  { rewrite obj_path_AF64. rewrite map_map, existsb_map.
     replace (64 <=? nw f) with false by lia. rewrite !orb_false_r.
     apply existsb_false. eapply Forall_impl; [|exact Hz]. intros z Hb. cbv beta in *.
     unfold num_big64, f64_floor_Z. replace (0 <=? 0) with true by reflexivity. rewrite Z.pow_0_r, Z.mul_1_r. lia. }
-  rewrite Hobj. cbn [astype_vd bind]. rewrite map_map.
+  rewrite (set_val_real_eq _ _ _ _ _ _ _ Hobj (exact_factor_AF64 _ _ _)). cbn [astype_vd bind]. rewrite map_map.
   destruct (mapM_char (elem_pipe f r o true false) (fun x => overflow o f (match x with NF (Fin z _) => z | _ => 0 end))
              (fun x => cmax f <? (match x with NF (Fin z _) => z | _ => 0 end)) (fun x => (match x with NF (Fin z _) => z | _ => 0 end) <? cmin f)
              (map (fun z => NF (Fin z 0)) zs)) as (rs & Hrs & Hc & Hg & Hl).
@@ -171,7 +172,9 @@ Definition raw_kind (op : aop) (fx fy : fmt) : rkind :=
   let nfr := nf (grow op fx fy) in
   if raw_cast (storage fx) (storage fy) nb || (match op with OpMul => false | _ => precision_cast nfr end) then KO
   else match storage fx, storage fy with
-       | SI64, SI64 => KI | SU64, SU64 => KU | _, _ => KF end.
+       | SI64, SI64 => KI
+       | SU64, SU64 => match op with OpSub => KI | _ => KU end      (* _sub_raw subtracts two uint64 arrays in int64 *)
+       | _, _ => KF end.
 
 (* the exact result in units of 2^-n_frac of the optimal format *)
 Definition exact_int (op : aop) (fx fy : fmt) (cx cy : Z) : Z :=
@@ -232,10 +235,44 @@ Proof.
   - rewrite <- Zmult_mod. reflexivity.
 Qed.
 
-Lemma raw_add_exact op fx fy cx cy : op <> OpMul -> wf_op fx -> wf_op fy ->
+Lemma load_num d c : as_num (load d c) = NI c.
+Proof. destruct d; reflexivity. Qed.
+(* functions._rescale with a non-negative shift: Python integers once the operands were cast ... *)
+Lemma rescale_obj ex pc rc v k c : 0 <= k -> as_num v = NI c -> rc || pc = true ->
+  rescale ex pc (cast_if rc v) k = Ok (MO (NI (c * 2^k))).
+Proof.
+  intros Hk Hv Hc. unfold rescale. replace (k <? 0) with false by lia.
+  assert (Hcv: as_num (cast_if rc v) = NI c) by (destruct rc; cbn [cast_if]; [unfold to_obj; cbn [as_num]|]; exact Hv).
+  destruct pc.
+  - unfold to_obj. rewrite Hcv. unfold mscale. replace (0 <=? k) with true by lia. reflexivity.
+  - rewrite orb_false_r in Hc. subst rc. cbn [cast_if]. unfold to_obj. rewrite Hv.
+    unfold mscale_raw, mscale. replace (0 <=? k) with true by lia. replace (k <? 0) with false by lia. destruct (0 <? k); reflexivity.
+Qed.
+(* ... and the machine product when it fits (utils.scale_raw does not switch to Python integers) *)
+Lemma rescale_machine ex v k : 0 <= k < 63 ->
+  match v with MI z => Z.abs z * 2^k < 2^63 | MU z => 0 <= z /\ z * 2^k < 2^63 | _ => False end ->
+  rescale ex false v k = Ok (match v with MI z => MI (z * 2^k) | MU z => MU (z * 2^k) | _ => v end).
+Proof.
+  intros Hk Hv. unfold rescale. replace (k <? 0) with false by lia. unfold mscale_raw.
+  assert (P: 0 < 2^k < 2^63) by (split; [apply pow2_pos; lia | apply pow2_lt; lia]).
+  assert (P64: 2^63 < 2^64) by (apply pow2_lt; lia).
+  destruct v as [z|z|x|n]; try contradiction.
+  - destruct (0 <? k) eqn:E.
+    + replace (63 <=? k) with false by lia. replace (2^63 <=? Z.abs z * 2^k) with false by lia. reflexivity.
+    + assert (k = 0) by lia. subst k. replace ((0 <? 0) && false) with false by reflexivity. unfold mscale. cbn [Z.leb Z.compare].
+      rewrite Z.pow_0_r, Z.mul_1_r in *. unfold fits_i64. replace (- 2^63 <=? 1) with true by reflexivity. replace (1 <? 2^63) with true by reflexivity.
+      cbn [andb]. rewrite wrap_i64_small by lia. reflexivity.
+  - destruct Hv as (Hz0 & Hzk). destruct (0 <? k) eqn:E.
+    + replace (63 <=? k) with false by lia. rewrite (Z.abs_eq z) by lia. replace (2^63 <=? z * 2^k) with false by lia. reflexivity.
+    + assert (k = 0) by lia. subst k. replace ((0 <? 0) && false) with false by reflexivity. unfold mscale. cbn [Z.leb Z.compare].
+      rewrite Z.pow_0_r, Z.mul_1_r in *. unfold fits_u64. replace (0 <=? 1) with true by reflexivity. replace (1 <? 2^64) with true by reflexivity.
+      cbn [andb]. rewrite wrap_u64_small by lia. reflexivity.
+Qed.
+
+Lemma raw_add_exact ex op fx fy cx cy : op <> OpMul -> wf_op fx -> wf_op fy ->
   in_range fx cx -> in_range fy cy ->
   let K := raw_kind op fx fy in let z := exact_int op fx fy cx cy in
-  raw_elem op fx fy (nf (grow op fx fy)) cx cy = Ok (encode K z) /\ kind_ok K z.
+  raw_elem ex op fx fy (nf (grow op fx fy)) cx cy = Ok (encode K z) /\ kind_ok K z.
 Proof.
   intros Hop (Hwx & Hfx) (Hwy & Hfy) Hrx Hry. cbv zeta.
   unfold raw_kind. rewrite !grow_nf. set (nfr := Z.max (nf fx) (nf fy)).
@@ -247,21 +284,20 @@ Proof.
   assert (Enf: (match op with OpMul => nf fx + nf fy | _ => nfr end) = nfr) by (destruct op; [reflexivity|reflexivity|congruence]).
   assert (Epc: (match op with OpMul => false | _ => precision_cast nfr end) = precision_cast nfr) by (destruct op; [reflexivity|reflexivity|congruence]).
   rewrite Enb, Enf, Epc.
-  assert (Eraw: raw_elem op fx fy nfr cx cy =
-    bind (mscale (cast_if (raw_cast (storage fx) (storage fy) (add_bits fx fy) || precision_cast nfr) (load (storage fx) cx)) kx) (fun a =>
-    bind (mscale (cast_if (raw_cast (storage fx) (storage fy) (add_bits fx fy) || precision_cast nfr) (load (storage fy) cy)) ky) (fun b =>
-    Ok (mbin op a b)))).
+  set (rc := raw_cast (storage fx) (storage fy) (add_bits fx fy)). set (pc := precision_cast nfr).
+  assert (Eraw: raw_elem ex op fx fy nfr cx cy =
+    bind (rescale ex pc (cast_if rc (load (storage fx) cx)) kx) (fun a =>
+    bind (rescale ex pc (cast_if rc (load (storage fy) cy)) ky) (fun b =>
+    Ok (match op with OpSub => msub a b | _ => mbin op a b end)))).
   { unfold raw_elem. destruct op; [reflexivity|reflexivity|congruence]. }
   rewrite Eraw. clear Eraw.
-  destruct (raw_cast (storage fx) (storage fy) (add_bits fx fy) || precision_cast nfr) eqn:Ecast.
+  destruct (rc || pc) eqn:Ecast.
   - (* Python integers *)
-    cbn [cast_if]. unfold to_obj.
-    assert (Hl: forall d c, as_num (load d c) = NI c) by (intros [] c; reflexivity).
-    rewrite !Hl. unfold mscale. replace (0 <=? kx) with true by lia. replace (0 <=? ky) with true by lia.
-    cbn [bind num_mul mbin as_num num_op]. split; [reflexivity|exact I].
-  - apply orb_false_iff in Ecast. destruct Ecast as (Erc & Epc').
-    unfold raw_cast in Erc. apply orb_false_iff in Erc. destruct Erc as (Enb64 & Emixed).
-    unfold precision_cast in Epc'.
+    rewrite (rescale_obj ex pc rc _ kx cx Hkx (load_num _ _) Ecast), (rescale_obj ex pc rc _ ky cy Hky (load_num _ _) Ecast).
+    cbn [bind]. split; [|exact I]. destruct op; [reflexivity|reflexivity|congruence].
+  - apply orb_false_iff in Ecast. destruct Ecast as (Erc & Epc'). rewrite Erc, Epc'.
+    unfold rc, raw_cast in Erc. apply orb_false_iff in Erc. destruct Erc as (Enb64 & Emixed).
+    unfold pc, precision_cast in Epc'.
     assert (Hnb: add_bits fx fy < 64) by lia.
     assert (Hax: nw fx + kx <= add_bits fx fy - 2) by (unfold add_bits, kx, nfr; lia).
     assert (Hay: nw fy + ky <= add_bits fx fy - 2) by (unfold add_bits, ky, nfr; lia).
@@ -269,60 +305,66 @@ Proof.
     assert (Hsy: storage fy = if sg fy then SI64 else SU64) by (apply storage_small; lia).
     destruct (scaled_bound fx cx kx Hwx Hrx Hkx) as (Bx & Ux).
     destruct (scaled_bound fy cy ky Hwy Hry Hky) as (By & Uy).
+    destruct (code_mag fx cx Hwx Hrx) as (_ & UUx). destruct (code_mag fy cy Hwy Hry) as (_ & UUy).
     assert (P61: 2^61 < 2^62) by (apply pow2_lt; lia). assert (P62: 2^62 < 2^63) by (apply pow2_lt; lia). assert (P63: 2^63 < 2^64) by (apply pow2_lt; lia).
-    assert (Pkx: 0 < 2^kx < 2^63) by (split; [apply pow2_pos; lia | apply pow2_lt; lia]).
-    assert (Pky: 0 < 2^ky < 2^63) by (split; [apply pow2_pos; lia | apply pow2_lt; lia]).
-    cbn [cast_if]. rewrite Hsx, Hsy in *. unfold mscale. replace (0 <=? kx) with true by lia. replace (0 <=? ky) with true by lia.
+    assert (Pkx: 0 < 2^kx) by (apply pow2_pos; lia). assert (Pky: 0 < 2^ky) by (apply pow2_pos; lia).
+    rewrite Z.abs_mul, (Z.abs_eq (2^kx)) in Bx by lia. rewrite Z.abs_mul, (Z.abs_eq (2^ky)) in By by lia.
+    cbn [cast_if]. rewrite Hsx, Hsy in *.
     destruct (sg fx) eqn:Esx, (sg fy) eqn:Esy; cbn [load sdt_eqb negb andb] in *.
     + (* int64, int64 *)
-      assert (Ba: Z.abs (cx * 2^kx) <= 2^61) by (eapply Z.le_trans; [exact Bx|apply pow2_le; lia]).
-      assert (Bb: Z.abs (cy * 2^ky) <= 2^61) by (eapply Z.le_trans; [exact By|apply pow2_le; lia]).
-      unfold fits_i64. replace (- 2^63 <=? 2^kx) with true by lia. replace (2^kx <? 2^63) with true by lia.
-      replace (- 2^63 <=? 2^ky) with true by lia. replace (2^ky <? 2^63) with true by lia. cbn [andb bind mbin].
-      rewrite !(wrap_i64_small (_ * _)) by lia.
+      assert (Ba: Z.abs cx * 2^kx <= 2^61) by (eapply Z.le_trans; [exact Bx|apply pow2_le; lia]).
+      assert (Bb: Z.abs cy * 2^ky <= 2^61) by (eapply Z.le_trans; [exact By|apply pow2_le; lia]).
+      rewrite (rescale_machine ex (MI cx) kx) by (cbv beta iota; lia). rewrite (rescale_machine ex (MI cy) ky) by (cbv beta iota; lia).
+      cbn [bind]. assert (Ba': Z.abs (cx * 2^kx) <= 2^61) by (rewrite Z.abs_mul, (Z.abs_eq (2^kx)) by lia; exact Ba).
+      assert (Bb': Z.abs (cy * 2^ky) <= 2^61) by (rewrite Z.abs_mul, (Z.abs_eq (2^ky)) by lia; exact Bb).
       assert (Bz: Z.abs (z_op op (cx * 2^kx) (cy * 2^ky)) < 2^63) by (destruct op; cbn [z_op]; [lia|lia|congruence]).
-      rewrite wrap_i64_small by exact Bz. split; [reflexivity|exact Bz].
+      split; [|exact Bz]. destruct op; [| |congruence]; cbn [msub mbin encode]; rewrite wrap_i64_small by exact Bz; reflexivity.
     + (* int64, uint64: float64 promotion, allowed only up to 53 bits *)
       assert (Hnb53: add_bits fx fy <= 53) by lia.
-      assert (Ba: Z.abs (cx * 2^kx) <= 2^50) by (eapply Z.le_trans; [exact Bx|apply pow2_le; lia]).
-      assert (Bb: Z.abs (cy * 2^ky) <= 2^51) by (eapply Z.le_trans; [exact By|apply pow2_le; lia]).
+      assert (Ba: Z.abs cx * 2^kx <= 2^50) by (eapply Z.le_trans; [exact Bx|apply pow2_le; lia]).
+      assert (Bb: Z.abs cy * 2^ky <= 2^51) by (eapply Z.le_trans; [exact By|apply pow2_le; lia]).
       assert (2^50 < 2^51) by (apply pow2_lt; lia). assert (2^51 < 2^52) by (apply pow2_lt; lia). assert (2^52 < 2^53) by (apply pow2_lt; lia).
-      unfold fits_i64, fits_u64. replace (- 2^63 <=? 2^kx) with true by lia. replace (2^kx <? 2^63) with true by lia.
-      replace (0 <=? 2^ky) with true by lia. replace (2^ky <? 2^64) with true by lia. cbn [andb bind mbin as_num num_to_f64].
-      specialize (Uy eq_refl).
-      rewrite (wrap_i64_small (_ * _)) by lia. rewrite (wrap_u64_small (_ * _)) by lia.
-      rewrite !f64_of_Z_exact by lia.
+      specialize (UUy eq_refl).
+      rewrite (rescale_machine ex (MI cx) kx) by (cbv beta iota; lia). rewrite (rescale_machine ex (MU cy) ky) by (cbv beta iota; rewrite (Z.abs_eq cy) in Bb by lia; lia).
+      cbn [bind]. assert (Ba': Z.abs (cx * 2^kx) <= 2^50) by (rewrite Z.abs_mul, (Z.abs_eq (2^kx)) by lia; exact Ba).
+      assert (Bb': Z.abs (cy * 2^ky) <= 2^51) by (rewrite Z.abs_mul, (Z.abs_eq (2^ky)) by lia; exact Bb).
       assert (Bz: Z.abs (z_op op (cx * 2^kx) (cy * 2^ky)) < 2^53) by (destruct op; cbn [z_op]; [lia|lia|congruence]).
-      rewrite f64_addsub_int by assumption. split; [reflexivity|exact Bz].
+      split; [|exact Bz]. destruct op; [| |congruence]; cbn [msub mbin as_num num_to_f64 encode];
+        rewrite !f64_of_Z_exact by lia; rewrite f64_addsub_int by (try discriminate; exact Bz); reflexivity.
     + (* uint64, int64 *)
       assert (Hnb53: add_bits fx fy <= 53) by lia.
-      assert (Ba: Z.abs (cx * 2^kx) <= 2^51) by (eapply Z.le_trans; [exact Bx|apply pow2_le; lia]).
-      assert (Bb: Z.abs (cy * 2^ky) <= 2^50) by (eapply Z.le_trans; [exact By|apply pow2_le; lia]).
+      assert (Ba: Z.abs cx * 2^kx <= 2^51) by (eapply Z.le_trans; [exact Bx|apply pow2_le; lia]).
+      assert (Bb: Z.abs cy * 2^ky <= 2^50) by (eapply Z.le_trans; [exact By|apply pow2_le; lia]).
       assert (2^50 < 2^51) by (apply pow2_lt; lia). assert (2^51 < 2^52) by (apply pow2_lt; lia). assert (2^52 < 2^53) by (apply pow2_lt; lia).
-      unfold fits_i64, fits_u64. replace (- 2^63 <=? 2^ky) with true by lia. replace (2^ky <? 2^63) with true by lia.
-      replace (0 <=? 2^kx) with true by lia. replace (2^kx <? 2^64) with true by lia. cbn [andb bind mbin as_num num_to_f64].
-      specialize (Ux eq_refl).
-      rewrite (wrap_i64_small (_ * _)) by lia. rewrite (wrap_u64_small (_ * _)) by lia.
-      rewrite !f64_of_Z_exact by lia.
+      specialize (UUx eq_refl).
+      rewrite (rescale_machine ex (MU cx) kx) by (cbv beta iota; rewrite (Z.abs_eq cx) in Ba by lia; lia). rewrite (rescale_machine ex (MI cy) ky) by (cbv beta iota; lia).
+      cbn [bind]. assert (Ba': Z.abs (cx * 2^kx) <= 2^51) by (rewrite Z.abs_mul, (Z.abs_eq (2^kx)) by lia; exact Ba).
+      assert (Bb': Z.abs (cy * 2^ky) <= 2^50) by (rewrite Z.abs_mul, (Z.abs_eq (2^ky)) by lia; exact Bb).
       assert (Bz: Z.abs (z_op op (cx * 2^kx) (cy * 2^ky)) < 2^53) by (destruct op; cbn [z_op]; [lia|lia|congruence]).
-      rewrite f64_addsub_int by assumption. split; [reflexivity|exact Bz].
-    + (* uint64, uint64: sums fit, differences wrap and are reinterpreted by set_val *)
-      assert (Ba: Z.abs (cx * 2^kx) <= 2^61) by (eapply Z.le_trans; [exact Bx|apply pow2_le; lia]).
-      assert (Bb: Z.abs (cy * 2^ky) <= 2^61) by (eapply Z.le_trans; [exact By|apply pow2_le; lia]).
-      unfold fits_u64. replace (0 <=? 2^kx) with true by lia. replace (2^kx <? 2^64) with true by lia.
-      replace (0 <=? 2^ky) with true by lia. replace (2^ky <? 2^64) with true by lia. cbn [andb bind mbin].
-      rewrite wrap_u64_op. split; [reflexivity|]. cbn [kind_ok].
-      destruct op; cbn [z_op]; [lia|lia|congruence].
+      split; [|exact Bz]. destruct op; [| |congruence]; cbn [msub mbin as_num num_to_f64 encode];
+        rewrite !f64_of_Z_exact by lia; rewrite f64_addsub_int by (try discriminate; exact Bz); reflexivity.
+    + (* uint64, uint64: sums stay in uint64, differences are computed in int64 *)
+      assert (Ba: Z.abs cx * 2^kx <= 2^61) by (eapply Z.le_trans; [exact Bx|apply pow2_le; lia]).
+      assert (Bb: Z.abs cy * 2^ky <= 2^61) by (eapply Z.le_trans; [exact By|apply pow2_le; lia]).
+      specialize (UUx eq_refl). specialize (UUy eq_refl). rewrite (Z.abs_eq cx) in Ba by lia. rewrite (Z.abs_eq cy) in Bb by lia.
+      rewrite (rescale_machine ex (MU cx) kx) by (cbv beta iota; lia). rewrite (rescale_machine ex (MU cy) ky) by (cbv beta iota; lia).
+      cbn [bind]. assert (0 <= cx * 2^kx) by nia. assert (0 <= cy * 2^ky) by nia.
+      destruct op; [| |congruence]; cbn [msub mbin z_op encode kind_ok].
+      * split; [reflexivity|lia].
+      * rewrite !(wrap_i64_small (_ * _)) by lia. rewrite wrap_i64_small by lia. split; [reflexivity|lia].
 Qed.
 
-Lemma raw_mul_exact fx fy cx cy : wf_op fx -> wf_op fy -> in_range fx cx -> in_range fy cy ->
+Lemma rescale_zero ex pc p : rescale ex pc p 0 = mscale (cast_if pc p) 0.
+Proof. unfold rescale, mscale_raw. cbn [Z.ltb Z.compare andb]. destruct pc; reflexivity. Qed.
+
+Lemma raw_mul_exact ex fx fy cx cy : wf_op fx -> wf_op fy -> in_range fx cx -> in_range fy cy ->
   (nw fx + nw fy < 64 -> nf fx + nf fy < 64) ->
   let K := raw_kind OpMul fx fy in let z := exact_int OpMul fx fy cx cy in
-  raw_elem OpMul fx fy (nf (grow OpMul fx fy)) cx cy = Ok (encode K z) /\ kind_ok K z.
+  raw_elem ex OpMul fx fy (nf (grow OpMul fx fy)) cx cy = Ok (encode K z) /\ kind_ok K z.
 Proof.
   intros (Hwx & Hfx) (Hwy & Hfy) Hrx Hry Hpc. cbv zeta.
   unfold raw_kind. rewrite !grow_nf. cbn [exact_int]. rewrite orb_false_r.
-  unfold raw_elem. replace (nf fx + nf fy - nf fx - nf fy) with 0 by lia.
+  unfold raw_elem. replace (nf fx + nf fy - nf fx - nf fy) with 0 by lia. rewrite rescale_zero. unfold raw_prod.
   destruct (scaled_bound fx cx 0 Hwx Hrx ltac:(lia)) as (Bx & Ux).
   destruct (scaled_bound fy cy 0 Hwy Hry ltac:(lia)) as (By & Uy).
   rewrite Z.pow_0_r, Z.mul_1_r in Bx, By, Ux, Uy. rewrite Z.add_0_r in Bx, By.
@@ -504,10 +546,10 @@ Definition mul_pc_ok (op : aop) (fx fy : fmt) : Prop :=
 
 Lemma raw_exact op fx fy cx cy : wf_op fx -> wf_op fy -> mul_pc_ok op fx fy ->
   in_range fx cx -> in_range fy cy ->
-  raw_elem op fx fy (nf (grow op fx fy)) cx cy = Ok (encode (raw_kind op fx fy) (exact_int op fx fy cx cy))
+  forall ex, raw_elem ex op fx fy (nf (grow op fx fy)) cx cy = Ok (encode (raw_kind op fx fy) (exact_int op fx fy cx cy))
   /\ kind_ok (raw_kind op fx fy) (exact_int op fx fy cx cy).
 Proof.
-  intros Hx Hy Hpc Hrx Hry. destruct op.
+  intros Hx Hy Hpc Hrx Hry ex. destruct op.
   - apply raw_add_exact; [discriminate|assumption..].
   - apply raw_add_exact; [discriminate|assumption..].
   - apply raw_mul_exact; try assumption. apply Hpc. reflexivity.
@@ -545,14 +587,14 @@ Proof.
   { intros [a b] Hp. rewrite Forall_forall in Hrx, Hry. split; [apply Hrx; exact (in_combine_l _ _ _ _ Hp) | apply Hry; exact (in_combine_r _ _ _ _ Hp)]. }
   rewrite (map2M_pairs _ (fun p => encode K (g p))).
   2: exact Hlen.
-  2: { intros p Hp. destruct (Hin p Hp) as (Ha & Hb). destruct (raw_exact op fx fy (fst p) (snd p) Hx Hy Hpc Ha Hb) as (E & _). exact E. }
+  2: { intros p Hp. destruct (Hin p Hp) as (Ha & Hb). destruct (raw_exact op fx fy (fst p) (snd p) Hx Hy Hpc Ha Hb (arith_exact op fx cxs fy cys (nf (grow op fx fy)))) as (E & _). exact E. }
   cbn [bind]. rewrite <- (map_map g (encode K)).
   assert (Hzne: map g (combine cxs cys) <> []).
   { destruct cxs as [|a cxs]; [congruence|]. destruct cys as [|b cys]; [discriminate|]. cbn. discriminate. }
   rewrite arr_of_encode by exact Hzne. cbn [bind].
   assert (Hok: Forall (kind_ok K) (map g (combine cxs cys))).
   { rewrite Forall_map. apply Forall_forall. intros p Hp. destruct (Hin p Hp) as (Ha & Hb).
-    destruct (raw_exact op fx fy (fst p) (snd p) Hx Hy Hpc Ha Hb) as (_ & E). exact E. }
+    destruct (raw_exact op fx fy (fst p) (snd p) Hx Hy Hpc Ha Hb false) as (_ & E). exact E. }
   destruct (kind_width op fx fy Hx Hy) as (WU & WF & W1).
   fold K in WU, WF. destruct K; cbn [arr_of_kind fst snd kind_ok] in *.
   - apply set_val_raw_i64; assumption.
@@ -608,12 +650,14 @@ Proof.
         destruct (c <? cmin f) eqn:E2; [f_equal; lia|]. cbn [elem_to_int num_int]. f_equal. lia.
       - rewrite orb_true_r. cbn [elem_to_int num_int bind]. f_equal. apply wrap_model_res. lia. }
     rewrite Ho. cbn [bind elem_gt elem_lt]. eexists. reflexivity. }
-  unfold set_val_real. destruct (obj_path f false (pyint_arr v)) eqn:Hobj.
+  destruct (obj_path f false (pyint_arr v) VInt) eqn:Hobj; rewrite (set_val_real_eq _ _ _ _ _ _ _ Hobj (exact_factor_nf _ _ _ Hf)).
   - assert (Hn: arr_nums (pyint_arr v) = [NI v]) by (unfold pyint_arr; destruct (fits_i64 v); reflexivity).
     rewrite Hn. cbn [bind mapM]. destruct Hobj_elem as (ia & He). rewrite He. cbn [bind map existsb e_code e_gt e_lt].
     eexists. split; [reflexivity|]. cbn [w_codes w_ovf w_unf]. rewrite !orb_false_r. auto.
   - (* int64 path: the scaled value fits *)
     unfold obj_path, conv_factor_int in Hobj. replace (0 <=? nf f) with true in Hobj by lia.
+    apply orb_false_iff in Hobj. destruct Hobj as (Hobj & _). apply orb_false_iff in Hobj. destruct Hobj as (Hobj & _).
+    apply orb_false_iff in Hobj. destruct Hobj as (Hobj & _).
     apply orb_false_iff in Hobj. destruct Hobj as (H1 & H2). apply orb_false_iff in H1. destruct H1 as (Hbig & Hnw).
     unfold pyint_arr in *. destruct (fits_i64 v) eqn:Efit.
     + cbn [arr_nums existsb] in *. apply orb_false_iff in H2. destruct H2 as (Hk & Hv). rewrite orb_false_r in Hv.
